@@ -701,6 +701,8 @@ def f8(repo: Repo) -> RuleResult:
                     ra = single_atom(q.ret)
                     if ra is not None and ra[0] == "comp" and any(k_[0] == "truthy" and t_ and k_[1] == ra[3] for k_, t_ in q.guards):
                         continue  # an unfiltered comprehension over an iterable the path knows to be non-empty
+                    if any(k_[0] == "truthy" and t_ and k_[1] == q.ret for k_, t_ in q.guards):
+                        continue  # the returned list itself was tested non-empty on this path
                     fixed = any(a[0] == "tuple" and len(a[1]) > 0 for a in _atoms_deep(q.ret))
                     grown = any(e.kind == "call" and e.name in ("append", "insert", "extend") and e.recv is not None and e.recv == q.ret for e in q.effects)
                     if not (fixed or grown):
